@@ -130,6 +130,15 @@ pub trait Pool {
     fn obs(&self, d: usize) -> Value;
     /// full observation of the pool
     fn fin(&self) -> Value;
+    /// value and hook triples only
+    fn obs_lite(&self, d: usize) -> Value {
+        let o = self.obs(d);
+        json!({"v": o["v"], "t": o["t"]})
+    }
+    fn fin_lite(&self) -> Value {
+        let o = self.fin();
+        json!({"v": o["v"], "t": o["t"]})
+    }
     /// drop every register (end of the history)
     fn clear(&mut self);
 }
@@ -384,6 +393,16 @@ macro_rules! int_pool {
             }
             fn clear(&mut self) {
                 self.regs.clear();
+            }
+            fn obs_lite(&self, d: usize) -> Value {
+                json!({"v": Self::enc(self.val(d)), "t": [self.tri(d)]})
+            }
+            fn fin_lite(&self) -> Value {
+                let nr = self.nr();
+                json!({
+                    "v": (1..=nr).map(|r| Self::enc(self.val(r))).collect::<Vec<_>>(),
+                    "t": (1..=nr).map(|r| vec![self.tri(r)]).collect::<Vec<_>>(),
+                })
             }
         }
     };
@@ -1116,18 +1135,23 @@ pub fn make_pool(kind: &str, nr: usize) -> Box<dyn Pool> {
 /// Runs one history; `window` brackets every call into the library (the C17 driver records
 /// allocator events inside it) and returns what must be attached to the step's observation.
 pub fn run_history(case: &Value, window: &mut dyn FnMut(&mut dyn FnMut()) -> Value) -> Value {
+    run_history_opt(case, window, false)
+}
+/// `lite`: log only value and hook triple per step (the Miri runs: Miri is the observer there, the
+/// interpreted comparison / hashing / twin building would dominate the run time)
+pub fn run_history_opt(case: &Value, window: &mut dyn FnMut(&mut dyn FnMut()) -> Value, lite: bool) -> Value {
     let kind = case["pool"].as_str().unwrap_or("U");
     let nr = case["nr"].as_u64().unwrap_or(4) as usize;
     // the register file itself belongs to the harness (built outside the recorded window)
     let mut pool = make_pool(kind, nr);
-    let h0 = pool.fin()["hs"][0].clone();
+    let h0 = if lite { json!([]) } else { pool.fin()["hs"][0].clone() };
     let mut obs: Vec<Value> = Vec::new();
     let mut harness_fault = false;
     for s in case["steps"].as_array().map(|a| a.as_slice()).unwrap_or(&[]) {
         let d = us(s, "d");
         let mut res: Result<(), String> = Ok(());
         let al = window(&mut || res = guarded(|| pool.exec(s)));
-        let mut o = pool.obs(d);
+        let mut o = if lite { pool.obs_lite(d) } else { pool.obs(d) };
         match res {
             Ok(()) => o["k"] = json!("ok"),
             Err(m) => {
@@ -1141,7 +1165,7 @@ pub fn run_history(case: &Value, window: &mut dyn FnMut(&mut dyn FnMut()) -> Val
         o["al"] = al;
         obs.push(o);
     }
-    let fin = pool.fin();
+    let fin = if lite { pool.fin_lite() } else { pool.fin() };
     // end of the history: every register is dropped
     let al_end = window(&mut || pool.clear());
     drop(pool);
